@@ -125,3 +125,76 @@ def mark_record(case, f2, tid):
         tags.append({"tag": s["tag"], "script": sc, "rtl": otproject.script_is_rtl(sc)})
     return {"tid": tid, "n": len(order), "order": order, "glyphs": glyphs, "q": int(case.get("q", 1)),
             "hasCats": bool(cats), "tags": tags, "F": F}
+
+
+def ltr_glyphs(f2):
+    """Glyphs of left-to-right scripts the way the cursive writer classifies them: Script property of the
+    code point, closed over GSUB together with the direction-neutral glyphs."""
+    from fontTools import subset, unicodedata
+
+    cmap = f2.getBestCmap() or {}
+    ltr, neutral = set(), set()
+    for cp, g in cmap.items():
+        sc = unicodedata.script(chr(cp))
+        if sc in ("Zyyy", "Zinh"):
+            neutral.add(g)
+        elif unicodedata.script_horizontal_direction(sc, "LTR") == "LTR":
+            ltr.add(g)
+    if "GSUB" not in f2 or not f2["GSUB"].table.LookupList:
+        return ltr
+
+    def close(gl):
+        s = subset.Subsetter()
+        s.glyphs = set(gl)
+        f2["GSUB"].closure_glyphs(s)
+        return set(s.glyphs)
+
+    n = close(neutral) if neutral else set()
+    return close(ltr | n) - n if ltr else set()
+
+
+def gdefcurs_record(case, f2, tid):
+    order = f2.getGlyphOrder()
+    gid = {n: i for i, n in enumerate(order)}
+    F = {"gpos": otproject.gpos(f2), "gdef": otproject.gdef(f2)}
+    ufo = case["ufo"]
+    cats = (ufo.get("lib") or {}).get("public.openTypeCategories", {})
+    ltr = ltr_glyphs(f2)
+    all_anchor_names = {a["n"] for n in order if n in ufo["glyphs"] for a in ufo["glyphs"][n].get("anchors", [])}
+    pairs = []
+    if "entry" in all_anchor_names and "exit" in all_anchor_names:
+        pairs.append("-")
+    for an in all_anchor_names:
+        if an.startswith("entry.") and "exit." + an[6:] in all_anchor_names:
+            pairs.append(an[6:])
+    glyphs = []
+    for n in order:
+        g = ufo["glyphs"].get(n, {"anchors": []})
+        carets = []
+        curs = {}
+        for a in g.get("anchors", []):
+            nm = a["n"]
+            if nm.startswith("caret_"):
+                carets.append(a["x"] * 4 // 1024)
+            elif nm.startswith("vcaret_"):
+                carets.append(a["y"] * 4 // 1024)
+            elif nm == "entry" or nm.startswith("entry.") or nm == "exit" or nm.startswith("exit."):
+                kind, _, suf = nm.partition(".")
+                c = curs.setdefault(suf or "-", {"pair": suf or "-", "suffix": "RTL" if suf.endswith("RTL") else "LTR" if suf.endswith("LTR") else "",
+                                                 "hasEntry": False, "ex": 0, "ey": 0, "hasExit": False, "xx": 0, "xy": 0})
+                if kind == "entry" and not c["hasEntry"]:
+                    c.update(hasEntry=True, ex=a["x"] * 4 // 1024, ey=a["y"] * 4 // 1024)
+                elif kind == "exit" and not c["hasExit"]:
+                    c.update(hasExit=True, xx=a["x"] * 4 // 1024, xy=a["y"] * 4 // 1024)
+        glyphs.append({"cat": cats.get(n, ""), "ltr": n in ltr, "carets": carets, "curs": list(curs.values())})
+    uc = case.get("userClasses")
+    user_classes = []
+    if uc:
+        for n in uc["base"]:
+            if n in gid:
+                user_classes.append([gid[n], 1])
+        for n in uc["mark"]:
+            if n in gid:
+                user_classes.append([gid[n], 3])
+    return {"tid": tid, "n": len(order), "order": order, "glyphs": glyphs, "pairs": pairs, "userDefinesClasses": bool(uc),
+            "userClasses": user_classes, "userDefinesCarets": False, "userDefinesCurs": False, "F": F}
